@@ -9,6 +9,7 @@ mod mux;
 mod probe;
 mod props;
 mod refmp4;
+mod replay;
 mod worker;
 
 #[global_allocator]
@@ -88,6 +89,7 @@ fn main() {
                 2
             }
         },
+        "replay" => replay::run(&args[2]),
         _ => usage(),
     };
     std::process::exit(code);
